@@ -202,4 +202,27 @@ PROPS["C06"] = {
     "level_note": "Ghost sums/counters are engine-level abstractions with stated axioms; engine and z3 trusted.",
 }
 
+PROPS["C10"] = {
+    "contracts": ["contracts/C10_gates.py"],
+    "level": "other",
+    "extra": [{"name": "C10/bounded[signature instances x paddings x case x thresholds; hostile inputs; histories]", "kind": "bounded",
+               "cmd": ["/venv/bin/python", "native/c10_bounded.py"]}],
+    "assumptions": ["in the gate proofs `matches` is a deterministic total function M(signature, content) (uninterpreted); for substring signatures its definition "
+                    "pattern.lower() in content.lower() is a separate proved postcondition; `re` is a trusted external (regex signatures: total, deterministic)",
+                    "A-ascii: str.lower is a monoid homomorphism and lower(swapcase(c)) = lower(c); the embedding lemma is proved by z3's sequence theory on the lowered strings",
+                    "embedding-monotonicity for REGEX signatures is not claimed deductively (false for anchored patterns); bounded stand-in over the shipped regex signatures",
+                    "'blocked before' is read as blocked by signature or memory; a rate-limit refusal is not a judgement about the content",
+                    "CharacterSetValidator's per-character loop and _measure_depth's recursion are covered by the bounded stand-in and by the callers' contracts "
+                    "(validate never raises: every raising call is inside the repaired except clause), not by their own loop invariants",
+                    "universal quantification over signatures by generalisation: ghost parameters j, j2 are arbitrary indices"],
+    "trusted_base": ["hashlib.sha256 uninterpreted", "z3 sequence theory for the embedding lemma"],
+    "explanation": "Deductive part: Membrane.filter — allowed only if the running maximum over ALL matching built-in/custom and learned signatures is below the threshold "
+                   "(inductive loop invariants for an arbitrary signature index), memory precedes rules, signature blocks are remembered, every return path appends one "
+                   "audit entry, no exception escapes; rate window bound as object invariant with the lock-ownership clause; learn/import/forget/threshold frames; "
+                   "InnateImmunity.check analogous; shipped validators never raise and give a reason on rejection. Bounded part: instances of every shipped signature "
+                   "embedded and case-perturbed, hostile inputs (surrogates, 50k-deep JSON, 5000-digit ints, 150k chars), histories, fake-clock rate limiting.",
+    "level_text": "Mixed proof + bounded stand-in (regex matching semantics are external).",
+    "level_note": "M(sig, content) uninterpreted in gate proofs; re/hashlib trusted; engine and z3 trusted.",
+}
+
 NOT_APPLICABLE = {}
